@@ -264,3 +264,13 @@ Qed.
 
 Example ex_finite : finite 4728057454355442549.
 Proof. vm_compute. discriminate. Qed.
+
+(* the writer's table found in the source is admissible for the table-generic theorem *)
+Lemma rt_show_table_ok : show_table_ok rt_show_escapes.
+Proof.
+  unfold show_table_ok. split; [|split; [|split]].
+  - cbv [rt_show_escapes map snd]. repeat (constructor; [cbn; intuition discriminate|]). constructor.
+  - cbv [rt_show_escapes]. repeat (constructor; [cbn; discriminate|]). constructor.
+  - vm_compute. discriminate.
+  - vm_compute. discriminate.
+Qed.
